@@ -193,13 +193,13 @@ def full_tree(sc, clients):
 
 
 # ----------------------------------------------------------------------------- one project through rope + CPython
-def run_project(tree, op):
+def run_project(tree, op, preview=None):
     """-> dict with before/after observations for every python file of the tree"""
     before_texts = {rel: L.module_text(m, m.get("token", rel)) for rel, m in tree["files"].items()}
     dirs_before = sorted(L.tree_dirs(tree))
     names_before = {rel: L.modname_of_rel(rel) for rel in before_texts}
     ob = L.oracle_on_texts(before_texts, dirs_before, [n for n in names_before.values() if n])
-    out = L.run_rope_op(tree, op)
+    out = L.run_rope_op(tree, op, preview)
     names_after = {rel: L.modname_of_rel(rel) for rel in out["files"]}
     oa = L.oracle_on_texts(out["files"], out["dirs"], [n for n in names_after.values() if n])
     parsed = {}
@@ -530,7 +530,11 @@ def run_refactor_stream(ctx, n_scen):
                 if not clients and pi > 0:
                     continue
                 tree = full_tree(sc, clients)
-                pr = run_project(tree, op)
+                preview = None
+                if op[0] == "move" and oi % 2 == 1 and len(ops) > 1:
+                    preview = tuple(ops[oi - 1][2])      # previewed (and discarded) before the real destination
+                    ctx.count("refactor:move:after-preview")
+                pr = run_project(tree, op, preview)
                 ctx.traces += 1
                 ctx.count("refactor:" + op[0] + (":raised" if pr["raised"] else ":done"))
                 wname = "w_%d_%d_%d" % (si, oi, pi)
